@@ -16,7 +16,11 @@ def make_case(rng, n, density, fmt, e_scale):
     order = np.lexsort((cols, rows))          # row-major canonical order, as the package produces
     rows, cols, S, H = rows[order], cols[order], S[order], H[order]
     return {"n": int(n), "fmt": fmt, "rows": rows.tolist(), "cols": cols.tolist(), "S": S.tolist(), "H": H.tolist(),
-            "V": rng.uniform(0.1, 4.0, n).tolist(), "E": (rng.normal(0, e_scale, n)).tolist(),
+            "V": rng.uniform(0.1, 4.0, n).tolist(),
+            # every fourth system has a plateau: some cells sit thousands of kJ/mol above the others (a repulsive wall / hot region),
+            # so the energy RANGE is far beyond what a per-cell Boltzmann weight can represent while neighbours inside a plateau
+            # differ by little
+            "E": (rng.normal(0, e_scale, n) + (rng.integers(0, 2, n) * float(rng.choice([4000.0, 9000.0, 60000.0])) if rng.random() < 0.25 else 0.0)).tolist(),
             "D": float(rng.uniform(0.01, 3)), "T": float(rng.uniform(150, 450)),
             "shift": float(rng.choice([0.0, 7.5, -300.0, 45000.0, -45000.0, 3700.0]))}
 
@@ -41,7 +45,7 @@ def evaluate(case):
         Q3 = SQRA(E + case.get("shift", 0.0), V, dist, surf).get_rate_matrix(D, T)
         Q4 = sq.get_rate_matrix(D, T)
     Qd = Q.toarray()
-    if not np.allclose(Q2.toarray(), 2.0 * Qd, rtol=1e-9, atol=0):
+    if not np.allclose(Q2.toarray(), 2.0 * Qd, rtol=1e-9, atol=1e-300):      # atol: subnormal rates (1e-321) double inexactly
         return "not linear in D (or a second call on the same object gives another matrix)"
     if not np.array_equal(Q4.toarray(), Qd):
         return "a repeated call on the same object returns a different matrix"
@@ -78,7 +82,8 @@ def evaluate(case):
 
 def run(tier, seed):
     res = Result("C01", rule="random symmetric patterns (n 2..14, density 0..1 incl. empty rows and disconnected "
-                 "patterns), S,h symmetric positive, energies on both sides of the 500 cap, csr and row-major coo inputs; "
+                 "patterns), S,h symmetric positive, energies on both sides of the 500 cap, a quarter of the systems with a plateau of cells "
+                 "4000-60000 kJ/mol above the rest, csr and row-major coo inputs; "
                  "non-trivial = at least one stored entry; distinct by (n, fmt, nnz, seed index)",
                  bound="n <= 14, %d systems" % (120 if tier == "quick" else 1500),
                  oracle="dense closed formula D*S/(h*V_i)*exp(min(round(dE,14),500)*1000/(2 k_B N_A T)), diagonal = -row sum",
